@@ -426,12 +426,18 @@ def compare_with_model(ctx, cases, chunk=200000):
     if ctx.lean is not None and not ctx.lean.driver_ok:
         return 0
     skipped = 0
+    state = {}       # the driver is stateful (set_seen / set_unary ...): every chunk starts a new
+                     # process, so the last state-setting line of each kind is replayed first
     for i in range(0, len(cases), chunk):
         part = cases[i:i + chunk]
+        pre = list(state.values())
         try:
-            outs = run_lines([c[1] for c in part])
+            outs = run_lines(pre + [c[1] for c in part])[len(pre):]
         except (DriverError, OSError, subprocess.TimeoutExpired) as e:
             raise Infra(f'driver failed: {e}')
+        for c in part:
+            if c[1].startswith('set_'):
+                state[c[1].split(' ', 2)[0] + ' ' + (c[1].split(' ', 2) + [''])[1]] = c[1]
         for (op, line, impl_out, case), m in zip(part, outs):
             if m == 'err Unsupported' or impl_out == 'err Unsupported':
                 skipped += 1
